@@ -49,7 +49,7 @@ CLAIMS = {
         note="ring's primitives are assumed (A7: open inverts seal only for the same key, nonce and AAD). reqwest/url are stand-ins (A10: a response remembers the request it answers). The object-store and git backends' call sites are outside the verifier's reach and not covered; the request URL is opaque (format!)."),
     'C14': dict(
         text="Proof that from_op maps Create/Delete/Update to exactly the documented fields and UndoPoint to nothing, that the real SyncOp carries nothing beyond the documented wire fields (wire view injective: an added field fails the lemma), and that sync sends, in order, prefixes of the rebased operations derived from the unsynchronized list.",
-        note="TYPE-LEVEL HALF ONLY: the JSON text, RFC 3339 rendering and acceptance of other implementations' documents are serde/chrono code behind derive macros and are not decided (assumption A6)."),
+        note="PROVED: the type-level half (what from_op keeps, what SyncOp can carry, the order sync sends). The JSON text, RFC 3339 rendering and acceptance of other implementations' documents are serde/chrono code behind derive macros: no contract can be discharged there, so that half is a BOUNDED stand-in (engine replica_exec mode c14, executed, never counted as proved): for every edit sequence up to 5 (thorough 6) steps the versions a real replica hands to a harness-side Server are parsed and compared with the committed operations and the documented fields / Z timestamps, and 15 hand-written versions with other field orders, whitespace and timestamp precisions/offsets are applied. The implementation wraps the documented array as {\"operations\": [...]} (docs/src/sync-protocol.md shows the bare array); the check accepts the wrapper every deployed replica uses."),
     'C15': dict(
         text="Proof over the real working_set::rebuild (scan, append, zip write-back, shrink and grow loops, arbitrary pure predicate): afterwards index 0 is empty, a task is listed iff it exists and satisfies the predicate, exactly once; without renumbering survivors keep their index and newcomers come after all old indexes; with renumbering entries are gap-free in the old relative order; committed. TaskDb::commit_operations appends the tasks of the flagged operations, and only those, at the end without moving others. Replica level: the predicates actually passed are proved to be 'status is pending or recurring' (rebuild) and 'status changes from neither to one of them' (commit); Replica::sync and undo rebuild without renumbering.",
         note="Write-back is proved against the StorageTxn contract (trailing blanks trimmed, add appends at highest index + 1), proved for in-memory, assumed for SQLite. Old working set assumed duplicate-free (storage invariant)."),
@@ -58,10 +58,10 @@ CLAIMS = {
         note="The in-memory half is proved (iterator chains verified as the loops they denote, rule R26). NOTHING about SQLite is proved: SQL run by a C library is outside every installed deductive verifier, so that half is a bounded execution against the proved implementation -- bounds in evidence coverage.bounded; sequences longer than the bound, more than 2 task ids, and concurrent handles are not explored."),
     'C18': dict(
         text="Kani proves for every i64 that the checked timestamp conversion used by the read accessors (utc_timestamp_opt in the unmodified src/task/time.rs) never panics; Verus proves panic-freedom (its default obligations: no unwrap on None, no index out of bounds, no arithmetic overflow, no unreachable) for the extracted read functions.",
-        note="Iterator-returning getters built from lazy closures over HashMap iterators (get_tags, get_dependencies), DependencyMap and Replica read methods are outside reach. String kernels (Tag::from_str) are bounded Kani harnesses, labelled bounded."),
+        note="PROVED: the integer kernel (Kani, full i64 domain) and the extracted read functions (Verus). Iterator-returning getters built from lazy closures over HashMap iterators (get_tags, get_annotations, get_dependencies, get_udas), Tag parsing, DependencyMap and WorkingSet::iter are outside every installed verifier: BOUNDED stand-in (engine replica_exec mode c18, executed under panic capture, never counted as proved): every public read method of Task, TaskData, WorkingSet, DependencyMap and Replica on every task map with 0/1 entries (+ 6 context entries; thorough: pairs) over 167 keys (recognised, malformed, long non-ASCII at every byte alignment in accepted and rejected shapes) and 31 hostile values, planted through the storage API."),
     'C19': dict(
         text="Proof over TaskData::{create,update,delete} and the core Task mutators: exactly the documented operations are recorded, each Update carries the value the property really had, the object's map changes accordingly; set_value refreshes `modified` once per editing session and never when set explicitly; set_status adds/removes `end` as documented.",
-        note="CORE RULES ONLY: tag/annotation/dependency/UDA key formatting and parsing, synthetic tags and Replica::dependency_map are not covered."),
+        note="PROVED: TaskData and the core Task mutators. Key formatting/parsing for tags, annotations, dependencies and UDAs, set_due, synthetic tags and the dependency map's lazy iterators are outside every installed verifier: BOUNDED stand-in (engine replica_exec mode c19, executed, never counted as proved): every sequence of up to 3 (thorough 4) of 52 mutator calls on three base tasks, each followed by commit and reload, checked against the property's statement written as code (recorded operations replay to the held task, old values true, stored == held, read-back, reserved names refused, end follows status, synthetic tags, dependency map edges)."),
     'C20': dict(
         text="Proof over the real Replica::expire_tasks and all_task_data: the batch handed to commit_operations consists of exactly one Delete (carrying the whole old task) for every stored task whose status is deleted and whose `modified` is an integer inside the calendar range and earlier than now - 180 days, and of nothing else (missing, non-numeric or out-of-range times keep the task); it is committed as one ordinary batch. Synchronization half: a synchronized Delete wins over concurrent updates whoever syncs first (contract of transform + rebase theorem) and every replica's state is the replay of the chain.",
         note="chrono, str::parse and the clock are trusted stand-ins (A2: DateTime is a nanosecond count, from_timestamp is Some exactly on chrono's range, one clock reading per call). The drain/filter/for_each chain and the is_some_and/is_ok_and nest are verified as the loop and matches they denote (rules R5, R26, R29). The two halves are not composed into one multi-replica statement."),
